@@ -106,6 +106,9 @@ CallStoreFault(ep, h, k) ==
   /\ UNCHANGED <<presents, tofuOn>>
 \* the client object is used as a context manager and used again afterwards: leaving the block changes nothing
 ContextCycle == /\ Step /\ last' = Idle /\ act' = <<"ContextCycle">> /\ UNCHANGED <<pins, presents, tofuOn>>
+\* another client object is created on the same pin store while the k-th statement of opening the store fails: whether or not
+\* that client comes up, the pins are what they were
+ReopenFault(k) == /\ Step /\ last' = Idle /\ act' = <<"ReopenFault", k>> /\ UNCHANGED <<pins, presents, tofuOn>>
 Rotate(h, c) == /\ Step /\ presents[h] # c /\ presents' = [presents EXCEPT ![h] = c] /\ last' = Idle
                 /\ act' = <<"Rotate", h, c>> /\ UNCHANGED <<pins, tofuOn>>
 Trust(h, c)  == /\ Step /\ tofuOn /\ pins' = [pins EXCEPT ![h] = c] /\ last' = Idle
@@ -136,6 +139,7 @@ Next == \/ \E ep \in {"get", "upload"}, h \in HP : Call(ep, h)
         \/ \E ep \in {"get", "upload"}, h \in HP, c \in Certs : CallRacing(ep, h, c)
         \/ \E ep \in {"get", "upload"}, h \in HP, k \in 0..3 : CallStoreFault(ep, h, k)
         \/ ContextCycle
+        \/ \E k \in 0..3 : ReopenFault(k)
 Spec == Init /\ [][Next]_vars
 \* ---- properties (C03) ----
 Called == last.op # "none" /\ tofuOn
